@@ -9,6 +9,7 @@ package c11
 import (
 	"bytes"
 	"encoding/binary"
+	"strconv"
 	"strings"
 )
 
@@ -201,6 +202,19 @@ func mutate(kind, mut string, def, prev []byte) ([]byte, bool) {
 		return []byte("99999999999999999999"), true
 	case "negNum":
 		return []byte("-1"), true
+	case "zeroNum":
+		return []byte("0"), true
+	case "plus1Num", "minus1Num":
+		v, err := strconv.ParseInt(string(def), 10, 64)
+		if err != nil {
+			return nil, false
+		}
+		if mut == "plus1Num" {
+			v++
+		} else {
+			v--
+		}
+		return []byte(strconv.FormatInt(v, 10)), true
 	case "unknownLetter":
 		out := append([]byte(nil), def...)
 		for i, c := range out {
